@@ -117,7 +117,7 @@ func expect(x []byte, m method) (ok bool, u uint64, s []byte, consumed int, why 
 		return false, 0, nil, 0, "declared length exceeds remaining input"
 	}
 	c := x[hl : hl+int(arg)]
-	if m.major == 3 && !utf8.Valid(c) {
+	if m.major == 3 && !rcbor.ValidUTF8(c) {
 		return false, 0, nil, 0, "invalid UTF-8"
 	}
 	return true, arg, c, hl + int(arg), ""
@@ -273,6 +273,27 @@ func run(r *mon.Run) {
 	r.Rule("exhaustive: 256 initial bytes x follow-byte patterns (boundary values, every truncation of the follow bytes) x content shorter/equal/longer than declared x 7 content kinds x 5 Decode* methods x read chunk sizes {unlimited,1}; seeded: (value, head size) pairs, concatenated item streams with position tracking, decode(encode(v)) round trip; distinct = (method, initial byte, pattern, content relation, outcome)")
 	r.Assume("rcbor.Head (RFC 8949 section 3 head arithmetic) is the reference; non-shortest heads are well-formed")
 	r.Exhaustive(true)
+	// self-check of the reference: the RFC 3629 grammar written out in rcbor and the standard library agree
+	if r.Shard == 0 {
+		g := r.Rand("utf8-selfcheck", 0)
+		lead := []byte{0x00, 0x41, 0x7f, 0x80, 0xbf, 0xc0, 0xc1, 0xc2, 0xdf, 0xe0, 0xe1, 0xec, 0xed, 0xee, 0xef, 0xf0, 0xf1, 0xf3, 0xf4, 0xf5, 0xf8, 0xff}
+		cont := []byte{0x00, 0x7f, 0x80, 0x8f, 0x90, 0x9f, 0xa0, 0xbf, 0xc0, 0xff}
+		for k := 0; k < 40000; k++ {
+			n := 1 + g.Intn(5)
+			x := make([]byte, n)
+			for i := range x {
+				if i == 0 || g.Chance(1, 4) {
+					x[i] = mon.Pick(g, lead)
+				} else {
+					x[i] = mon.Pick(g, cont)
+				}
+			}
+			if rcbor.ValidUTF8(x) != utf8.Valid(x) {
+				r.HarnessFail("rcbor.ValidUTF8(%x) = %v disagrees with unicode/utf8", x, rcbor.ValidUTF8(x))
+				break
+			}
+		}
+	}
 	caseIdx := 0
 	chunks := []int{0, 1}
 	for ib := 0; ib < 256; ib++ {
@@ -334,6 +355,41 @@ func run(r *mon.Run) {
 							checkOne(r, x, m, ch, fmt.Sprintf("ib%02x/%s/%s/%s", ib, label, rl.name, k))
 						}
 					}
+				}
+			}
+		}
+	}
+
+	// text strings around the edges of UTF-8: every boundary code point (all valid, U+FFFD - the replacement character
+	// itself - included) and the classic ill-formed sequences, at the start, in the middle and at the end of the string
+	if r.Shard == 0 {
+		var seqs [][]byte
+		for _, cp := range []rune{0, 0x7f, 0x80, 0x7ff, 0x800, 0xfff, 0x1000, 0xd7ff, 0xe000, 0xfeff, 0xfffc, 0xfffd, 0xfffe, 0xffff, 0x10000, 0x3ffff, 0x40000, 0xfffff, 0x100000, 0x10ffff} {
+			seqs = append(seqs, []byte(string(cp)))
+		}
+		seqs = append(seqs, []byte{0xc0, 0x80}, []byte{0xc1, 0xbf}, []byte{0xe0, 0x80, 0x80}, []byte{0xe0, 0x9f, 0xbf}, []byte{0xf0, 0x80, 0x80, 0x80}, []byte{0xf0, 0x8f, 0xbf, 0xbf},
+			[]byte{0xed, 0xa0, 0x80}, []byte{0xed, 0xbf, 0xbf}, []byte{0xf4, 0x90, 0x80, 0x80}, []byte{0xf5, 0x80, 0x80, 0x80}, []byte{0xf8, 0x88, 0x80, 0x80, 0x80},
+			[]byte{0x80}, []byte{0xbf}, []byte{0xc2}, []byte{0xe2, 0x82}, []byte{0xf0, 0x9f, 0x92}, []byte{0xfe}, []byte{0xff}, []byte{0xef, 0xbf}, []byte{0xef, 0xbf, 0xbd, 0xef, 0xbf, 0xbd})
+		for _, sq := range seqs {
+			for _, shape := range []string{"alone", "first", "middle", "last"} {
+				c := append([]byte{}, sq...)
+				switch shape {
+				case "first":
+					c = append(c, "tail"...)
+				case "middle":
+					c = append(append([]byte("head"), c...), "tail"...)
+				case "last":
+					c = append([]byte("head"), c...)
+				}
+				for _, hs := range []int{0, 25} {
+					x := append(rcbor.AppendHeadSized(nil, 3, uint64(len(c)), hs), c...)
+					for _, m := range methods[3:] {
+						for _, ch := range chunks {
+							checkOne(r, x, m, ch, fmt.Sprintf("utf8-edge/%x/%s/h%d", sq, shape, hs))
+						}
+					}
+					x[0] = x[0]&0x1f | 2<<5 // the same content as a byte string
+					checkOne(r, x, methods[3], 0, fmt.Sprintf("utf8-edge-bytes/%x/%s/h%d", sq, shape, hs))
 				}
 			}
 		}
